@@ -10,8 +10,18 @@ Correspondence:
      plus random register sets and large memory windows;
   C  Python-level differential: `_sort_gathered_items` / `AutoCSR.get_csrs(sort=True)`, `CSRFieldAggregate`
      (offset resolution / overlap rejection), simple-CSR layout of `GenericBank`.
-Monitors (independent of the Lean model): `csrlib.RegFileMonitor`, `csrlib.SramMonitor`, and the direct
-property checks inside the mode-C loops.
+  G  the CSR bus glue: bank arrays built THROUGH `Interface` / `Interface.like` / `Interconnect` / `InterconnectShared`
+     with address widths 14..18, pagings 0x400/0x800/0x1000, data widths 8/32 and banks at locations 0, 1, 2^k-1, 2^k,
+     2^k+1 and the last one (A: tiny arrays, exhaustively; B: small real SoCs -- `SoCMini` subclasses with `csr_map`-pinned
+     peripherals -- simulated with the SoC's own `csr_bankarray` + `csr_interconnect`, driven at `soc.csr.masters`);
+     arrays whose structure the MODEL computes (`scan`: registers + memories + page registers of one object);
+     Python-level: `Interface.like` widths, `SoCCSRHandler.n_locs`, `CSRBankArray.scan` structure incl. constants,
+     field access-mode resolution and `check_names`, `get_memories`/`get_constants`/`CSRConstant`, nested gatherer order
+     and names (applied once), the documented simulation helpers under the real `run_simulation`.
+Registers are bound to the objects the harness created (by identity): a register the array dropped, displaced or put
+behind a bus that lost address bits is observed as one that does not react at its address.
+Monitors (independent of the Lean model): `csrlib.RegFileMonitor`, `csrlib.SramMonitor`, `csrlib.ArrayMonitor`, and the
+direct property checks inside the mode-C loops.
 """
 import random
 from explore import Job, run_jobs, generic_search, replay_with_monitor
@@ -907,7 +917,9 @@ ASSUMPTIONS = [
     "atomic 'all at once for software writing in ascending address order' is proved for ordering=big only (known finding C12-atomic-little-ordering; negative witness in LitexProps/C12.lean, probe on the real code on every run)",
     "memory windows: accesses beyond the populated window (clamped array index in the simulator) are outside the property; read/write theorems are stated for in-range words",
     "register sizes >= 1; field reset values fit their fields; raw CSR size <= bus width (asserted by GenericBank)",
-    "CSRConstant and the name prefixing of AutoCSR are not modelled (no bus-visible behaviour; exported names belong to C14)",
+    "glue theorems assume every interface of the glue carries the same widths (what SoC.do_finalize builds; instances with a narrower interface are outside) and locations below n_locs = 2^(aw - pbits)",
+    "gathered names are modelled as token lists (module path + own name); the '_'-joined strings are not injective (exported names belong to C14); field description/values are documentation only",
+    "field_access_pulse is _partial (explicit access=): a pulse field declared without access= stays ReadWrite in the code (negative witness in LitexProps/C12.lean; affects generated documentation only)",
 ]
 
 
@@ -1119,12 +1131,19 @@ def probes(ctx):
 
 
 def search(ctx, disagreements, proof_info):
-    for d in list(disagreements) + list(getattr(ctx, "modec", [])):
-        if isinstance(d, dict) and d.get("kind", "").startswith("monitor:"):
-            return {"instance": d["instance"], "input": {k: v for k, v in d.items() if k not in ("kind", "instance")},
-                    "monitor": d["kind"][8:]}
     hw = [d for d in disagreements if not isinstance(d, dict)]
     all_jobs = getattr(ctx, "jobs", None) or jobs(ctx.tier, ctx.seed)
+    # a bus-level trace on which a register-semantics monitor fired is the most telling input: first choice
+    for d in hw:
+        if getattr(d, "kind", "").startswith("monitor:"):
+            return {"instance": d.inst_name, "trace": [list(l) for l in d.trace], "monitor": d.kind[8:],
+                    "letter_format": FMT}
+    dict_hit = None
+    for d in list(disagreements) + list(getattr(ctx, "modec", [])):
+        if isinstance(d, dict) and d.get("kind", "").startswith("monitor:"):
+            dict_hit = {"instance": d["instance"], "input": {k: v for k, v in d.items() if k not in ("kind", "instance")},
+                        "monitor": d["kind"][8:]}
+            break
     # first pass (cheap, complete): every disagreement trace of every instance is replayed on a fresh instance with
     # the property monitor armed -- before any time-boxed random search starts
     for d in hw:
@@ -1143,6 +1162,8 @@ def search(ctx, disagreements, proof_info):
         if hit:
             return {"instance": inst.name, "trace": [list(l) for l in d.trace[:hit[0] + 1]], "monitor": hit[1],
                     "letter_format": FMT}
+    if dict_hit:
+        return dict_hit
     r = generic_search(ctx, hw, all_jobs, FMT)
     if r:
         return r
